@@ -12,6 +12,23 @@ use smartcore::math::distance::{Distance, Distances};
 use smartcore::math::num::RealNumber;
 use vharness::*;
 
+// largest observed |impl - definition| / allowance per oracle (goes into the evidence: how much slack
+// the rounding allowances have on this run)
+thread_local! {
+    static STATS: std::cell::RefCell<std::collections::BTreeMap<String, f64>> = std::cell::RefCell::new(std::collections::BTreeMap::new());
+}
+fn note(label: &str, ratio: f64) {
+    if ratio.is_finite() {
+        STATS.with(|s| {
+            let mut s = s.borrow_mut();
+            let e = s.entry(label.to_string()).or_insert(0.0);
+            if ratio > *e {
+                *e = ratio;
+            }
+        });
+    }
+}
+
 // ------------------------------------------------------------------------------------------
 // double-double arithmetic (reference values)
 // ------------------------------------------------------------------------------------------
@@ -399,6 +416,9 @@ fn check_metric(out: &mut Out, kind: Kind, x: &[f64], y: &[f64], z: &[f64], f32m
     let al: Vec<f64> = r.iter().map(|v| allowance(kind, n, *v, f32m)).collect();
     // closed forms
     for k in 0..3 {
+        if al[k] > 0.0 {
+            note(&format!("closed_form:{}:{}", kind.name(), if f32m { "f32" } else { "f64" }), (d[k] - r[k]).abs() / al[k]);
+        }
         if !((d[k] - r[k]).abs() <= al[k]) {
             let mut w = input.clone();
             w["pair"] = json!(pairs[k].0);
@@ -434,6 +454,9 @@ fn check_metric(out: &mut Out, kind: Kind, x: &[f64], y: &[f64], z: &[f64], f32m
         return;
     }
     // triangle inequality up to rounding
+    if al[0] + al[1] + al[2] > 0.0 {
+        note(&format!("triangle_excess:{}", kind.name()), (d[2] - d[0] - d[1]) / (al[0] + al[1] + al[2]));
+    }
     if !(d[2] <= d[0] + d[1] + al[0] + al[1] + al[2]) {
         let mut w = input.clone();
         w["got"] = json!({"d_xz": d[2], "d_xy": d[0], "d_yz": d[1]});
@@ -453,6 +476,9 @@ fn check_minkowski_special(out: &mut Out, x: &[f64], y: &[f64], f32m: bool) {
         match (dist(Kind::Minkowski(p), x, y, f32m), dist(other, x, y, f32m)) {
             (Ok(a), Ok(b)) => {
                 let al = allowance(Kind::Minkowski(p), n, b, f32m) + allowance(other, n, b, f32m);
+                if al > 0.0 {
+                    note(&format!("minkowski_{}_vs_{}", p, other.name()), (a - b).abs() / al);
+                }
                 if !((a - b).abs() <= al) {
                     let mut w = input.clone();
                     w["got"] = json!({"minkowski": a, "other": b, "allowed": al});
@@ -678,6 +704,9 @@ fn check_maha(out: &mut Out, cov: Option<&[Vec<f64>]>, data: Option<&[Vec<f64>]>
                 (Some(k), Some(d)) => 8.0 * (d.len() as f64 + 4.0) * u * (sigma_ref[i][i] * sigma_ref[j][j]).sqrt() * k[i] * k[j],
                 _ => 0.0,
             };
+            if al > 0.0 {
+                note(&format!("mahalanobis_covariance:{}", if f32m { "f32" } else { "f64" }), (sig[i][j] - sigma_ref[i][j]).abs() / al);
+            }
             if !((sig[i][j] - sigma_ref[i][j]).abs() <= al) {
                 let mut w = input.clone();
                 w["at"] = json!([i, j]);
@@ -698,6 +727,7 @@ fn check_maha(out: &mut Out, cov: Option<&[Vec<f64>]>, data: Option<&[Vec<f64>]>
                 s = s.add(DD::of(sinv[i][k]).mul(DD::of(sig[k][j])));
             }
             let e = s.val() - if i == j { 1.0 } else { 0.0 };
+            note(&format!("mahalanobis_inverse_residual:{}", if f32m { "f32" } else { "f64" }), e.abs() / res_al);
             if !(e.abs() <= res_al) {
                 let mut w = input.clone();
                 w["at"] = json!([i, j]);
@@ -737,6 +767,9 @@ fn check_maha(out: &mut Out, cov: Option<&[Vec<f64>]>, data: Option<&[Vec<f64>]>
         let a2 = al2(pairs[k].1, pairs[k].2);
         // |d - r| = |d^2 - r^2| / (d + r)
         al[k] = if r > 0.0 { (a2 / r).min(a2.sqrt()) } else { 0.0 };
+        if al[k] > 0.0 {
+            note(&format!("mahalanobis_closed_form:{}", if f32m { "f32" } else { "f64" }), (d[k] - r).abs() / al[k]);
+        }
         if !((d[k] - r).abs() <= al[k]) {
             let mut w = input.clone();
             w["pair"] = json!(pairs[k].0);
@@ -1081,7 +1114,7 @@ fn main() {
     corr_dist(&mut out, Kind::Minkowski(0), &t1, &t2, false); // p = 0 is rejected
 
     // ---- correspondence ----
-    let ncorr = if a.thorough { 160 } else { 36 };
+    let ncorr = if a.thorough { 400 } else { 108 };
     for i in 0..ncorr {
         for f32m in [false, true] {
             if f32m && i % 2 == 1 {
@@ -1120,7 +1153,7 @@ fn main() {
         corr_hamming_int(&mut out, &xi, &yi, i % 3 == 0);
     }
     // Mahalanobis: model on the implementation's stored inverse (bit-exact), cov (bit-exact)
-    let nmaha = if a.thorough { 120 } else { 30 };
+    let nmaha = if a.thorough { 320 } else { 80 };
     for i in 0..nmaha {
         let f32m = i % 5 == 4;
         let n = if f32m { rng.usize_in(1, 5) } else { rng.usize_in(1, 10) };
@@ -1130,11 +1163,18 @@ fn main() {
             let sc = 10f64.powf(rng.uniform(-2.0, 2.0));
             let c = gen_spd(&mut rng, n, cond, sc, f32m);
             corr_maha(&mut out, Some(&c), None, &x, &y, f32m);
-            if i % 6 == 0 {
-                // wrong length against the covariance: both are None
+            if i % 4 == 0 {
+                // wrong length against the covariance (either argument, shorter or longer)
+                let mut xl = x.clone();
+                xl.push(0.5);
                 let mut xs = x.clone();
-                xs.push(0.5);
-                corr_maha(&mut out, Some(&c), None, &xs, &y, f32m);
+                xs.pop();
+                match (i / 4) % 4 {
+                    0 => corr_maha(&mut out, Some(&c), None, &xl, &y, f32m),
+                    1 => corr_maha(&mut out, Some(&c), None, &xs, &y, f32m),
+                    2 => corr_maha(&mut out, Some(&c), None, &x, &xl, f32m),
+                    _ => corr_maha(&mut out, Some(&c), None, &x, &xs, f32m),
+                }
             }
         } else {
             let m = n + 1 + rng.usize_in(1, if f32m { 4 } else { 12 });
@@ -1144,7 +1184,7 @@ fn main() {
     }
 
     // ---- search: metric axioms and closed forms ----
-    let reps = if a.thorough { 40 } else { 4 };
+    let reps = if a.thorough { 400 } else { 24 };
     let mut all_kinds: Vec<Kind> = vec![Kind::Euclid, Kind::Manhattan, Kind::Hamming];
     for p in 1..=8u16 {
         all_kinds.push(Kind::Minkowski(p));
@@ -1179,7 +1219,7 @@ fn main() {
         }
     }
     // ---- search: Mahalanobis from covariances and from data ----
-    let nm = if a.thorough { 6000 } else { 700 };
+    let nm = if a.thorough { 40000 } else { 4000 };
     for i in 0..nm {
         let f32m = i % 4 == 3;
         let n = if i % 10 == 0 { 30 } else if i % 10 == 1 { 1 } else { rng.usize_in(1, if f32m { 12 } else { 30 }) };
@@ -1198,5 +1238,7 @@ fn main() {
             check_maha(&mut out, None, Some(&d), &x, &y, &z, f32m, MAHA_FAMILIES[fam]);
         }
     }
+    let stats: std::collections::BTreeMap<String, f64> = STATS.with(|s| s.borrow().clone());
+    out.set("max_observed_error_over_allowance", json!(stats));
     out.finish(&a.out);
 }
